@@ -560,6 +560,10 @@ func genC35(seed uint64, tier string) *Case {
 			c.Steps[len(c.Steps)-1].I = 1 + g.Intn(8)
 		}
 		if g.Bool(0.3) {
+			// a member announces new tags: what it supports stays what it was
+			c.Steps = append(c.Steps, Step{Op: "update", I: g.Intn(8)})
+		}
+		if g.Bool(0.3) {
 			k := g.Intn(8)
 			c.Steps = append(c.Steps, Step{Op: "member", I: k, J: g.Pick(2, 4, 5, 5), S: []string{"alive", "leaving", "left", "failed"}[g.Intn(4)]})
 		}
@@ -588,6 +592,16 @@ func execC35(r *Run) {
 	for idx, s := range r.C.Steps {
 		r.curStep = idx
 		switch s.Op {
+		case "update":
+			if up[s.I] {
+				gn := ghost(s.I, pm[s.I])
+				gn.Meta = []byte(fmt.Sprintf("rev%d", idx))
+				nd.conf().Events.NotifyUpdate(gn)
+				c.Wait()
+				c.Drain(0)
+				drainAll(c, 0)
+				r.Fault("member-tag-update")
+			}
 		case "member":
 			k := s.I
 			// bring the ghost to the requested status
@@ -668,6 +682,14 @@ func execC35(r *Run) {
 			}
 			eligible := map[string]string{} // addr -> name
 			for _, m := range members {
+				// (what a ghost supports is what memberlist last announced for it, not what
+				// the node's member table made of it)
+				var gk int
+				if n, _ := fmt.Sscanf(m.Name, "g%d", &gk); n == 1 {
+					if _, known := pm[gk]; known {
+						m.ProtocolMax = uint8(pm[gk])
+					}
+				}
 				if m.Status == serf.StatusAlive && m.ProtocolMax >= 5 && m.Name != nd.Name {
 					eligible[net.JoinHostPort(m.Addr.String(), fmt.Sprint(m.Port))] = m.Name
 				}
